@@ -58,16 +58,28 @@ func c01SqlRun(r *zsim.Run) {
 	cctx, cancel := context.WithCancel(context.Background())
 	cancel()
 	benign := []error{sql.ErrNoRows, sql.ErrTxDone}
+	// most runs stay with one kind of benign outcome: one wrongly counted as a failure then has nothing to hide behind
+	focusKind, focusErr, focused := o.Intn(7), o.Intn(2), o.Intn(3) > 0
+	r.Logf("focus kind=%d err=%d focused=%v", focusKind, focusErr, focused)
+	pickErr := func() error {
+		if focused {
+			return benign[focusErr]
+		}
+		return benign[o.Intn(2)]
+	}
 	for i := 0; i < 200; i++ {
 		var err error
 		kind := o.Intn(7)
+		if focused {
+			kind = focusKind
+		}
 		if kind == 6 && !mysqlVariant {
 			kind = 0
 		}
 		var want error
 		switch kind {
 		case 0: // Exec fails with a benign driver error
-			want = benign[o.Intn(2)]
+			want = pickErr()
 			fdb.Fail[fmt.Sprintf("exec#%d", fdbExecs(fdb))] = want
 			_, err = conn.Exec("update t set a=1")
 		case 1: // cancelled context
@@ -78,7 +90,7 @@ func c01SqlRun(r *zsim.Run) {
 			var v int
 			err = conn.QueryRow(&v, "select a from t")
 		case 3: // transaction body returns a benign error
-			want = benign[o.Intn(2)]
+			want = pickErr()
 			err = conn.Transact(func(Session) error { return want })
 		case 4:
 			want = context.Canceled
